@@ -675,6 +675,11 @@ def linecol_patterns():
             T("sub", T("to", b"\n"), T("*", T("any", 1), T("line"), T("column"))),
             T("any", T("*", T("%", T("*", T("line"), T("constant", b":"), T("column"))), 1)),
             T("*", T("thru", b"\n"), T("line", t), T("column", t), T("->", t)),
+            # the first line/column of a match taken inside a narrowed window (sub, til, split), later ones outside it
+            T("*", T("sub", 2, T("line")), T("any", T("*", T("line"), T("column"), 1)), T("line"), T("column")),
+            T("*", T("sub", T("to", b"\n"), T("column")), T("to", -1), T("line"), T("column")),
+            T("*", T("til", b"\n", T("line")), T("any", T("*", T("line"), T("column"), 1))),
+            T("split", b"\n", T("*", T("line"), T("column"), T("any", 1))),
             T("*", 1, T("error")),
             T("*", T("to", b"\n"), T("error", 0))]
 
